@@ -586,7 +586,19 @@ func genHost(rnd *hx.Rand, mk int) string {
 	switch {
 	case rnd.Pct(35):
 		return ""
-	case rnd.Pct(25):
+	case rnd.Pct(12):
+		// static bytes + periods exactly 254..257, with 0..2 parameter-only labels among them
+		total := 254 + rnd.Intn(4)
+		m := rnd.Intn(3)
+		rest := total - m - 193 // five static labels: 63+63+63+a+b and four periods
+		a := 1 + rnd.Intn(rest-1)
+		ls := []string{strings.Repeat("a", 63), strings.Repeat("b", 63), strings.Repeat("9", 63), strings.Repeat("c", a), strings.Repeat("d", rest-a)}
+		for j := 0; j < m; j++ {
+			k := rnd.Intn(len(ls) + 1)
+			ls = append(ls[:k], append([]string{"{p}"}, ls[k:]...)...)
+		}
+		return strings.Join(ls, ".")
+	case rnd.Pct(15):
 		// total static length around 255: labels of 63 bytes
 		var ls []string
 		for i := 0; i < 3; i++ {
@@ -602,7 +614,7 @@ func genHost(rnd *hx.Rand, mk int) string {
 	k := 1 + rnd.Intn(4)
 	ls := make([]string, k)
 	for i := range ls {
-		ls[i] = genLabel(rnd, mk, rnd.Pct(8))
+		ls[i] = genLabel(rnd, mk, rnd.Pct(12))
 	}
 	return strings.Join(ls, ".")
 }
@@ -798,18 +810,24 @@ func main() {
 		return
 	}
 
-	// ---- exhaustive, one case per string ----
-	maxLen := 5
-	for l := 0; l <= maxLen; l++ {
-		exts(l, func(x string) { addPat16(x, "exhaustive<=5") })
+	// ---- exhaustive ----
+	// lengths 0..1 one case per string; lengths 2..5 as one block per 2-byte prefix (Coq enumerates
+	// the block itself and compares digests: feeding 37k literal cases to coqc costs ~2.4 ms each);
+	// thorough adds lengths 6..7 as one block per 4-byte prefix
+	for l := 0; l <= 1; l++ {
+		exts(l, func(x string) { addPat16(x, "exhaustive<=1") })
 	}
-	scopes := []string{fmt.Sprintf("all %d strings of length <= %d over {a 1 - . / { } *} x 16 limit pairs (one case each)", col.lenItems(), maxLen)}
-
-	// ---- thorough: lengths 6..7 by blocks of a 4-byte prefix ----
+	type blockSpec struct {
+		prefix string
+		lo, hi int
+	}
+	var specs []blockSpec
+	exts(2, func(x string) { specs = append(specs, blockSpec{x, 0, 3}) })
 	if tier == "thorough" {
-		var prefixes []string
-		exts(4, func(x string) { prefixes = append(prefixes, x) })
-		results := make([]blockRes, len(prefixes))
+		exts(4, func(x string) { specs = append(specs, blockSpec{x, 2, 3}) })
+	}
+	results := make([]blockRes, len(specs))
+	{
 		var wg sync.WaitGroup
 		work := make(chan int)
 		for w := 0; w < 12; w++ {
@@ -818,36 +836,51 @@ func main() {
 				defer wg.Done()
 				mine := newEnvs()
 				for i := range work {
-					results[i] = runBlock(mine, prefixes[i], 2, 3)
+					results[i] = runBlock(mine, specs[i].prefix, specs[i].lo, specs[i].hi)
 				}
 			}()
 		}
-		for i := range prefixes {
+		for i := range specs {
 			work <- i
 		}
 		close(work)
 		wg.Wait()
-		nstr := 0
-		var blockAccepted []string
-		for _, b := range results {
-			col.add(fmt.Sprintf("CBlock %s 2 3 %s %s", hx.Bytes(b.prefix), hx.N(b.full.Uint64()), hx.N(b.erased.Uint64())),
-				fmt.Sprintf("block: all %d strings %s++x with 2<=|x|<=3 under the 16 limit pairs (digest of observations differs; expand with replay=block:%s:2:3)", b.strings, hx.Quote(b.prefix), hex.EncodeToString([]byte(b.prefix))), 150)
-			nstr += b.strings
-			evals += b.strings * len(es)
-			nontriv += b.nontrivial * len(es)
+	}
+	nshort, nlong, accLong := 0, 0, 0
+	for i, b := range results {
+		sp := specs[i]
+		col.add(fmt.Sprintf("CBlock %s %d %d %s %s", hx.Bytes(b.prefix), sp.lo, sp.hi, hx.N(b.full.Uint64()), hx.N(b.erased.Uint64())),
+			fmt.Sprintf("block: all %d strings %s++x with %d<=|x|<=%d under the 16 limit pairs (digest of observations differs; expand with replay=block:%s:%d:%d)", b.strings, hx.Quote(b.prefix), sp.lo, sp.hi, hex.EncodeToString([]byte(b.prefix)), sp.lo, sp.hi), 250)
+		evals += b.strings * len(es)
+		nontriv += b.nontrivial * len(es)
+		if b.observedPanics > 0 {
+			st.Count("outcome:panic")
+		}
+		if len(sp.prefix) == 2 {
+			nshort += b.strings
+			st.Count("kind:exhaustive-2..5(block)")
+			acceptedPool = append(acceptedPool, b.accepted...)
+			for _, p := range b.accepted {
+				st.Count("outcome:accepted(default limits)")
+				if len(p) >= 4 && strings.ContainsAny(p, "{") && rnd.Pct(1) {
+					sample(fmt.Sprintf("parseRoute(%s) accepted (default limits)", hx.Quote(p)))
+				}
+			}
+		} else {
+			nlong += b.strings
+			accLong += len(b.accepted)
 			st.Count("kind:exhaustive-6..7(block)")
-			blockAccepted = append(blockAccepted, b.accepted...)
-			if b.observedPanics > 0 {
-				st.Count("outcome:panic")
+			// a sample of the accepted long strings also goes through wild/route below
+			for _, p := range b.accepted {
+				if rnd.Pct(8) {
+					acceptedPool = append(acceptedPool, p)
+				}
 			}
 		}
-		scopes = append(scopes, fmt.Sprintf("all %d strings of length 6..7 over the same alphabet x 16 limit pairs (digest per 4-byte prefix); %d of them accepted under default limits", nstr, len(blockAccepted)))
-		// a sample of the accepted long strings also goes through wild/route below
-		for _, p := range blockAccepted {
-			if rnd.Pct(8) {
-				acceptedPool = append(acceptedPool, p)
-			}
-		}
+	}
+	scopes := []string{fmt.Sprintf("all %d strings of length <= 5 over {a 1 - . / { } *} x 16 limit pairs (lengths 0..1 one case each, lengths 2..5 as a digest per 2-byte prefix)", 9+nshort)}
+	if tier == "thorough" {
+		scopes = append(scopes, fmt.Sprintf("all %d strings of length 6..7 over the same alphabet x 16 limit pairs (digest per 4-byte prefix); %d of them accepted under default limits", nlong, accLong))
 	}
 
 	// ---- random structured patterns ----
